@@ -393,6 +393,26 @@ func discovery(rec *vr.Rec, rounds int, seed int64) {
 			rec.Inconclusive("discovery request not received: " + err.Error())
 		} else if req, perr := ref.ParseUDP(buf[:n]); perr == nil {
 			wantTok.Store(string(req.Token))
+			if round%2 == 1 {
+				// while the discovery waits, a second discovery is started with the very same token: it is refused (or
+				// runs on its own) - the first one keeps receiving the responses carrying its token
+				ctx2, cancel2 := context.WithTimeout(context.Background(), 50*time.Millisecond)
+				defer cancel2()
+				m2 := pool.NewMessage(ctx2)
+				_ = m2.SetupGet("/disc", req.Token)
+				m2.SetType(message.NonConfirmable)
+				derr := srv.DiscoveryRequest(m2, rs[0].addr, func(cc *udpclient.Conn, resp *pool.Message) {
+					b, _ := resp.ReadBody()
+					gmu.Lock()
+					gots = append(gots, got{cc.RemoteAddr().String(), string(b), string(resp.Token())})
+					gmu.Unlock()
+				})
+				if derr == nil {
+					rec.Count("discovery_second_request_with_same_token_accepted", 1)
+				} else {
+					rec.Count("discovery_second_request_with_same_token_refused", 1)
+				}
+			}
 			for i := 0; i < nResp; i++ {
 				resp := ref.Msg{Type: 1, Code: 0x45, MID: uint16(rnd.Intn(65536)), Token: req.Token, Payload: []byte(fmt.Sprintf("responder-%d", i))}
 				_, _ = rs[i].c.WriteToUDP(ref.EncodeUDP(resp), srvAddr)
